@@ -12,7 +12,7 @@ E-hist over insertion histories:
      before == after to_ical(), and a second to_ical() gives the same bytes; sorted on and off;
  (E) every output is a balanced, properly nested BEGIN/END sequence;
  (F) the same script builds ~250 trees in sub-processes with PYTHONHASHSEED = 0..7 (thorough 0..63): identical digests;
- (G) ~85 trees (the purity menu plus look-alike values: month 5 / 5L, 0 / False / 0.0, 'A' / 'a', one instant in six zones / tz implementations, midnight as DATE and DATE-TIME, equal durations) serialised in 17 different
+ (G) ~85 trees (the purity menu plus look-alike values: month 5 / 5L, 0 / False / 0.0, 'A' / 'a', one instant in six zones / tz implementations, midnight as DATE and DATE-TIME, equal durations, one representative per key-sorting class each of which comes first in one order) serialised in 31 different
      orders, each in a fresh process: every tree's bytes are the same whatever was serialised before it.
 """
 import hashlib
@@ -413,6 +413,52 @@ def emit_per_tree(order):
             ev.add_component(a)
             return ev
         builders.append((f"duration-{label}", build))
+    # one representative per class that sorts its keys: class-level state must not leak between them, whichever is used
+    # first in the process (orders "first:<label>")
+    from icalendar.caselessdict import CaselessDict
+
+    class Raw:
+        def __init__(self, fn):
+            self.fn = fn
+
+        def to_ical(self):
+            r = self.fn()
+            return r if isinstance(r, bytes) else repr(r).encode()
+
+    def generic():
+        c = Component()
+        c.name = "X-GEN"
+        for k in ("uid", "z", "dtstart", "a", "summary"):
+            c[k] = vText("v")
+        return c
+
+    def filled(cls):
+        c = cls()
+        for k in ("x-z", "location", "uid", "action", "tzid", "trigger", "dtstart", "summary", "version", "prodid", "a"):
+            c[k] = vText("v")
+        return c
+
+    class MyEvent(Event):
+        canonical_order = ("LOCATION", "A", "UID")
+
+    def cal_unknown_first():
+        cal = Calendar()
+        cal.add("version", "2.0")
+        cal.add("prodid", "p")
+        cal.add_component(generic())
+        cal.add_component(filled(Event))
+        return cal
+    for label, mk in (("k-generic", generic), ("k-caselessdict", lambda: Raw(lambda: CaselessDict(summary=1, b=2, uid=3, a=4).sorted_keys())),
+                      ("k-parameters", lambda: Raw(lambda: Parameters({"x-z": "1", "cn": "2", "a": "3"}).to_ical())),
+                      ("k-event", lambda: filled(Event)), ("k-todo", lambda: filled(Todo)), ("k-alarm", lambda: filled(Alarm)),
+                      ("k-journal", lambda: filled(Journal)), ("k-freebusy", lambda: filled(FreeBusy)),
+                      ("k-calendar", lambda: filled(Calendar)), ("k-timezone", lambda: filled(Timezone)),
+                      ("k-standard", lambda: filled(TimezoneStandard)), ("k-myevent", lambda: filled(MyEvent)),
+                      ("k-recur", lambda: Raw(lambda: vRecur(wkst="MO", byday=["MO"], count=3, freq="weekly", interval=2).to_ical())),
+                      ("k-cal-unknown-first", cal_unknown_first)):
+        builders.append((label, mk))
+    if order.startswith("first:"):
+        builders.sort(key=lambda b: b[0] != order[6:])
     if order == "reverse":
         builders = builders[::-1]
     elif order == "interleaved":
@@ -504,7 +550,9 @@ def run(ctx):
     ctx.absorb("hash-seeds", ("hashseed", len(digests)), res)
     # (G) history independence across a process: per-tree digests in three serialisation orders
     maps = {}
-    orders = ("forward", "reverse", "interleaved") + tuple(f"rot{k}" for k in range(1, 15))
+    orders = ("forward", "reverse", "interleaved") + tuple(f"rot{k}" for k in range(1, 15)) + tuple(
+        f"first:{k}" for k in ("k-generic", "k-caselessdict", "k-parameters", "k-event", "k-todo", "k-alarm", "k-journal", "k-freebusy",
+                               "k-calendar", "k-timezone", "k-standard", "k-myevent", "k-recur", "k-cal-unknown-first"))
     for order in orders:
         p = subprocess.run([sys.executable, "-c", f"from mc.checks import c10; c10.emit_per_tree({order!r})"],
                            cwd=os.path.dirname(os.path.dirname(os.path.dirname(os.path.abspath(__file__)))),
